@@ -42,8 +42,10 @@ func (c08) Generate(r *rand.Rand, tier string) (sim.Config, any) {
 	if tier == "thorough" {
 		nops = 8 + r.IntN(14)
 	}
-	p.Ops = GenHistory(r, p.Schema, p.MaxPointSize, HistoryOpts{NOps: nops, IDPool: p.IDPool, MaxBatch: 9, PIndexed: 0.8})
-	p.Panel = GenPanel(r, p.Schema, p.IDPool, 10)
+	withVecStyle(pickVecStyle(r), func() {
+		p.Ops = GenHistory(r, p.Schema, p.MaxPointSize, HistoryOpts{NOps: nops, IDPool: p.IDPool, MaxBatch: 9, PIndexed: 0.8})
+		p.Panel = GenPanel(r, p.Schema, p.IDPool, 10)
+	})
 	all := []string{"tiny", "disabled", "reopen", "release", "mem"}
 	r.Shuffle(len(all), func(i, j int) { all[i], all[j] = all[j], all[i] })
 	p.Configs = append([]string{"unlimited"}, all[:2+r.IntN(3)]...)
